@@ -119,14 +119,14 @@ theorem fresh_block_counts {m : M} (o : Own roots m) :
   · unfold sAny; rw [List.countP_eq_zero]; intro a ha; simp [(hst a ha).2]
 
 /-- creating a combinator: a new (root) core, a new data block pointing at it, and the attach actions -/
-theorem data_combinator {m : M} (o : Own roots m) (h : DataOK roots prog m) (total : Nat) (acts : List Act)
+theorem data_combinator {m : M} (o : Own roots m) (h : DataOK roots prog m) (total : Nat) (ins : List Nat) (ak : Bool) (acts : List Act)
     (hprog : ∀ p ∈ prog, p < m.cores.length)
     (hcA : ∀ k, sAll k acts = if k = m.datas.length then sAll m.datas.length acts else 0)
     (hcY : ∀ k, sAny k acts = if k = m.datas.length then sAny m.datas.length acts else 0)
     (hsum : sAll m.datas.length acts + sAny m.datas.length acts ≤ total)
     (hex : sAll m.datas.length acts = 0 ∨ sAny m.datas.length acts = 0) :
     DataOK roots prog
-      { (m.newCore {}).1 with datas := (m.newCore {}).1.datas ++ [({ target := m.cores.length, total := total } : Data)],
+      { (m.newCore {}).1 with datas := (m.newCore {}).1.datas ++ [({ target := m.cores.length, total := total, inputs := ins, anyKind := ak } : Data)],
                               stack := acts ++ (m.newCore {}).1.stack } := by
   obtain ⟨f1, f2, f3, f4, f5⟩ := fresh_block_counts o
   have h1 : DataOK roots prog (m.newCore {}).1 := data_newCore {} rfl o h prog h.tgtProg
@@ -303,12 +303,12 @@ theorem data_exec {news : List Nat} (m : M) (op : Op) (g : Good roots m) (h : Da
     have hY : ∀ k, sAny k (ps.zipIdx.map fun (pi : Nat × Nat) => Act.attach pi.1 ({ kind := .allInput (m.newCore {}).1.datas.length pi.2, chain := 0 } : Req)) = 0 := by
       intro k; unfold sAny
       rw [countP_map_const _ _ _ false (by intro x; simp [attAny, isAny])]; rfl
-    have gc := good_combinator g ps.length (ps.zipIdx.map fun (pi : Nat × Nat) => Act.attach pi.1 ({ kind := .allInput (m.newCore {}).1.datas.length pi.2, chain := 0 } : Req)) (by
+    have gc := good_combinator g ps.length ps false (ps.zipIdx.map fun (pi : Nat × Nat) => Act.attach pi.1 ({ kind := .allInput (m.newCore {}).1.datas.length pi.2, chain := 0 } : Req)) (by
       intro a ha
       simp only [List.mem_map] at ha
       obtain ⟨pi, _, rfl⟩ := ha
       exact ⟨pi.1, _, rfl, rfl, rfl, rfl, by show (m.newCore {}).1.datas.length < m.datas.length + 1; exact Nat.lt_succ_self _⟩)
-    have dc := data_combinator o h ps.length (ps.zipIdx.map fun (pi : Nat × Nat) => Act.attach pi.1 ({ kind := .allInput (m.newCore {}).1.datas.length pi.2, chain := 0 } : Req))
+    have dc := data_combinator o h ps.length ps false (ps.zipIdx.map fun (pi : Nat × Nat) => Act.attach pi.1 ({ kind := .allInput (m.newCore {}).1.datas.length pi.2, chain := 0 } : Req))
       hnewsLt (by intro k; rw [hA k, hA]; simp) (by intro k; rw [hY k, hY]; simp) (by rw [hA, hY]; simp) (Or.inr (hY _))
     have sd := data_settleDown gc.own (data_roots dc)
     refine ⟨sd.1, ?_⟩
@@ -332,12 +332,12 @@ theorem data_exec {news : List Nat} (m : M) (op : Op) (g : Good roots m) (h : Da
     have hA : ∀ k, sAll k (ps.map fun (p : Nat) => Act.attach p ({ kind := .anyInput (m.newCore {}).1.datas.length, chain := 0 } : Req)) = 0 := by
       intro k; unfold sAll
       rw [countP_map_const _ _ _ false (by intro x; simp [attAll, isAll])]; rfl
-    have gc := good_combinator g ps.length (ps.map fun (p : Nat) => Act.attach p ({ kind := .anyInput (m.newCore {}).1.datas.length, chain := 0 } : Req)) (by
+    have gc := good_combinator g ps.length ps true (ps.map fun (p : Nat) => Act.attach p ({ kind := .anyInput (m.newCore {}).1.datas.length, chain := 0 } : Req)) (by
       intro a ha
       simp only [List.mem_map] at ha
       obtain ⟨pi, _, rfl⟩ := ha
       exact ⟨pi, _, rfl, rfl, rfl, rfl, by show (m.newCore {}).1.datas.length < m.datas.length + 1; exact Nat.lt_succ_self _⟩)
-    have dc := data_combinator o h ps.length (ps.map fun (p : Nat) => Act.attach p ({ kind := .anyInput (m.newCore {}).1.datas.length, chain := 0 } : Req))
+    have dc := data_combinator o h ps.length ps true (ps.map fun (p : Nat) => Act.attach p ({ kind := .anyInput (m.newCore {}).1.datas.length, chain := 0 } : Req))
       hnewsLt (by intro k; rw [hA k, hA]; simp) (by intro k; rw [hY k, hY]; simp) (by rw [hA, hY]; simp) (Or.inl (hA _))
     have sd := data_settleDown gc.own (data_roots dc)
     refine ⟨sd.1, ?_⟩
